@@ -13,7 +13,7 @@ def refine(ck, n, variant, maxrunes, kinds):
     with open(os.path.join(ck.stage_specs(), cfg), "w") as f:
         f.write('SPECIFICATION Spec\nCONSTANT N = %d\nCONSTANT Variant = "%s"\nCONSTANT MaxRunes = %d\nCONSTANT Kinds = %s\n'
                 'INVARIANT Refines\nVIEW View\nCHECK_DEADLOCK FALSE\n' % (n, variant, maxrunes, kinds))
-    return ck.tlc("ReaderRefine", cfg=cfg, timeout=2400, must_finish=False, count=(variant == "fixed"))
+    return ck.tlc("ReaderRefine", cfg=cfg, timeout=2400, must_finish=False, count=(variant == "emit"))
 
 
 def run(ck):
@@ -25,12 +25,12 @@ def run(ck):
 
     # ---- A. design level: the two-buffer reader refines the reader contract (exhaustive, small constants) ----
     for n, mr, kinds in ((2, 5 if quick else 6, "{97, 10, 233}"), (3, 5 if quick else 7, "{97, 10, 233, 8364}"), (4, 5 if quick else 7, "{97, 10, 233, 8364}")):
-        r = refine(ck, n, "fixed", mr, kinds)
+        r = refine(ck, n, "emit", mr, kinds)
         if "Invariant Refines is violated" in r.out:
             ck.violation("design level: the repaired two-buffer reader (templates/input.go.tmpl as modelled in TwoBuffer.tla, N=%d) does not refine the reader contract" % n,
                          {"property": "C13", "kind": "model", "n": n})
         elif not r.ok:
-            raise vp.Infra("ReaderRefine(fixed, N=%d) did not complete:\n%s" % (n, r.out[-2000:]))
+            raise vp.Infra("ReaderRefine(emit, N=%d) did not complete:\n%s" % (n, r.out[-2000:]))
     d = refine(ck, 2, "dep", 3, "{97, 10}")
     dep_broken = "Invariant Refines is violated" in d.out
     ck.notes.append("model of the dependency's reader (TwoBuffer Variant=dep): contract violated=%s (known: latched EOF / second reload after "
